@@ -21,7 +21,8 @@ let rec syn_of (s : Sx.t) : syn_ty = match s with
 let venum_of (rows : Sx.t list) : venum =
   sl (fun r -> match r with
       | Sx.L (Sx.Sym "v" :: Sx.Sym k :: name :: aliases) ->
-        { vv_skip = (k = "skip"); vv_pv = { PossibleValues.pv_name = bs name; pv_aliases = sl bs aliases } }
+        { vv_skip = (k = "skip"); vv_pv = { PossibleValues.pv_name = bs name; pv_aliases = sl bs aliases };
+          vv_hide = (k = "hide") }
       | _ -> failwith "venum row") rows
 
 let vty_of (s : Sx.t) : vty = match s with
@@ -227,7 +228,7 @@ let run (mode : string) (a : Sx.t list) : string =
     let d = dinput_of spec in
     let argv = argv_of argv in
     let direct = show_presult (derived_parse d argv) in
-    let cmd, fam = match cmd_parse (derive_cmd d) d.d_nodes argv with
+    let cmd, fam = match Parser.parse_top (derive_cmd d) argv with
       | Parser.OOk m -> "(cmd ok)", "(fam " ^ show_xres (extract d m) ^ ")"
       | Parser.OErr e -> "(cmd err " ^ kind_name e.Errors.e_kind ^ ")", "(fam skipped)"
       | o -> "(cmd " ^ Show.show_outcome o ^ ")", "(fam skipped)" in
